@@ -72,6 +72,7 @@ def errToModel : Fail → Option Meta.OpenErr
   | .err .invalidCompressionType => some .badCodec
   | .err .cursor => none
   | .err .decompress => none
+  | .err .merge => none
   | .panic _ => none
 
 def resToModel : M Gen.Metadata → Option (Except Meta.OpenErr Meta.Meta)
